@@ -71,6 +71,7 @@ type nilEngine struct {
 	retNN         map[*ssa.Function][]bool
 	retPair       map[*ssa.Function][]int    // result idx -> error result idx when "err == nil => result non-nil", else -1
 	predNN        map[*ssa.Function][]int    // bool function: returns true => these params are non-nil
+	retCell       map[*ssa.Function][]string // one-result function returning a pointer to a struct: these fields of the pointee are non-nil on return
 	retKey        map[*ssa.Function][]int    // one-result function: on return, the result is a key of these map parameters (of the same map object the caller passed)
 	predCell      map[*ssa.Function][]string // bool function: returns true => the cell "<param idx>|<field>" of a pointer parameter is non-nil on return
 	mods          map[*ssa.Function]map[string]bool
@@ -111,7 +112,7 @@ func vid(v ssa.Value) string {
 func newNilEngine(c *Ctx, scope []*ssa.Function, roots []*ssa.Function) *nilEngine {
 	e := &nilEngine{c: c, p: c.P, fns: scope,
 		paramNN: map[*ssa.Parameter]bool{}, paramDyn: map[*ssa.Parameter]bool{}, paramCell: map[string]bool{}, cellWant: map[string]bool{},
-		retNN: map[*ssa.Function][]bool{}, retPair: map[*ssa.Function][]int{}, predNN: map[*ssa.Function][]int{}, predCell: map[*ssa.Function][]string{}, retKey: map[*ssa.Function][]int{},
+		retNN: map[*ssa.Function][]bool{}, retPair: map[*ssa.Function][]int{}, predNN: map[*ssa.Function][]int{}, predCell: map[*ssa.Function][]string{}, retKey: map[*ssa.Function][]int{}, retCell: map[*ssa.Function][]string{},
 		entryNN: map[*ssa.Parameter]bool{}, roots: map[*ssa.Function]bool{}, mapValsNN: map[ssa.Value]int{}, structInv: map[string]int{},
 		byCtr: map[*ssa.Function]string{}, siteOK: map[ssa.Instruction]bool{}, siteFieldOK: map[ssa.Instruction]map[string]bool{}, siteKeys: map[ssa.Instruction]map[string]bool{}, assumed: map[string]string{}, used: map[string]int{}}
 	e.mods = c.P.modSets()
@@ -186,6 +187,22 @@ func (e *nilEngine) solve() {
 		}
 		e.retNN[f] = rn
 		e.retPair[f] = rp
+		// cell candidates: the one result points to a struct of the module with nillable fields
+		if n == 1 && e.p.isModuleFn(f) {
+			if pt, isPtr := f.Signature.Results().At(0).Type().Underlying().(*types.Pointer); isPtr {
+				if sst, isSt := pt.Elem().Underlying().(*types.Struct); isSt && sst.NumFields() <= 12 && !isProtoPkg(fnPkgPath(f)) {
+					var cs []string
+					for k := 0; k < sst.NumFields(); k++ {
+						if isNillable(sst.Field(k).Type()) {
+							cs = append(cs, sst.Field(k).Name())
+						}
+					}
+					if len(cs) > 0 {
+						e.retCell[f] = cs
+					}
+				}
+			}
+		}
 		// key candidates: the one result has the key type of a map parameter
 		if n == 1 && e.p.isModuleFn(f) {
 			var ks []int
@@ -338,6 +355,7 @@ func (e *nilEngine) solve() {
 		newPred := map[*ssa.Function][]int{}
 		newPredCell := map[*ssa.Function][]string{}
 		newRetKey := map[*ssa.Function][]int{}
+		newRetCell := map[*ssa.Function][]string{}
 		newSiteKeys := map[ssa.Instruction]map[string]bool{}
 		newSite := map[ssa.Instruction]bool{}
 		newFieldOK := map[ssa.Instruction]map[string]bool{}
@@ -352,6 +370,9 @@ func (e *nilEngine) solve() {
 			}
 			if len(e.retKey[f]) > 0 {
 				newRetKey[f] = append([]int{}, e.retKey[f]...)
+			}
+			if len(e.retCell[f]) > 0 {
+				newRetCell[f] = append([]string{}, e.retCell[f]...)
 			}
 		}
 		for _, f := range e.all {
@@ -466,6 +487,15 @@ func (e *nilEngine) solve() {
 						}
 						newPred[f] = keep
 					}
+					if cs := newRetCell[f]; len(cs) > 0 && len(x.Results) == 1 {
+						var keep []string
+						for _, fld := range cs {
+							if _, has := st["NNC:"+canon(x.Results[0])+"."+fld]; has {
+								keep = append(keep, fld)
+							}
+						}
+						newRetCell[f] = keep
+					}
 					if ks := newRetKey[f]; len(ks) > 0 && len(x.Results) == 1 {
 						var keep []int
 						for _, pj := range ks {
@@ -514,7 +544,7 @@ func (e *nilEngine) solve() {
 			}
 		}
 		for f := range newRet {
-			if fmt.Sprint(newRet[f]) != fmt.Sprint(e.retNN[f]) || fmt.Sprint(newPair[f]) != fmt.Sprint(e.retPair[f]) || fmt.Sprint(newPred[f]) != fmt.Sprint(e.predNN[f]) || fmt.Sprint(newPredCell[f]) != fmt.Sprint(e.predCell[f]) || fmt.Sprint(newRetKey[f]) != fmt.Sprint(e.retKey[f]) {
+			if fmt.Sprint(newRet[f]) != fmt.Sprint(e.retNN[f]) || fmt.Sprint(newPair[f]) != fmt.Sprint(e.retPair[f]) || fmt.Sprint(newPred[f]) != fmt.Sprint(e.predNN[f]) || fmt.Sprint(newPredCell[f]) != fmt.Sprint(e.predCell[f]) || fmt.Sprint(newRetKey[f]) != fmt.Sprint(e.retKey[f]) || fmt.Sprint(newRetCell[f]) != fmt.Sprint(e.retCell[f]) {
 				changed = true
 			}
 		}
@@ -553,6 +583,7 @@ func (e *nilEngine) solve() {
 		e.paramNN, e.paramCell, e.retNN, e.retPair, e.predNN = newParam, newCell, newRet, newPair, newPred
 		e.predCell = newPredCell
 		e.retKey = newRetKey
+		e.retCell = newRetCell
 		if !changed {
 			e.c.Stats["E1 summary rounds"] = round + 1
 			if os.Getenv("GTFSDEBUGFN") != "" {
@@ -1019,6 +1050,17 @@ func (e *nilEngine) assumeNonNil(v ssa.Value, st fstate) {
 		e.assumeNonNil(x.X, st)
 	case *ssa.ChangeType:
 		e.assumeNonNil(x.X, st)
+	case *ssa.Call:
+		// a nil-safe getter answered non-nil: its receiver is non-nil and so is the field it reads (another call of the
+		// getter, or a direct read of the field, yields the same value until the field is written)
+		if cal := x.Call.StaticCallee(); cal != nil && !x.Call.IsInvoke() && len(x.Call.Args) == 1 {
+			if fi, ok := getterField(cal); ok {
+				recv := x.Call.Args[0]
+				st["NN:"+vid(recv)] = nil
+				cls := typeName(cal.Params[0].Type()) + "." + fieldName(cal.Params[0].Type(), fi)
+				st["NNC:"+canon(recv)+"."+fieldName(cal.Params[0].Type(), fi)] = append(memFields(recv), "="+cls)
+			}
+		}
 	}
 }
 
@@ -1167,6 +1209,9 @@ func (e *nilEngine) transfer(in ssa.Instruction, st fstate) {
 		defer func() {
 			// a helper that reports the key under which it left an entry in the map it was handed
 			if call, isCall := x.(*ssa.Call); isCall && len(cs) == 1 && !cc.IsInvoke() {
+				for _, fld := range e.retCell[cs[0]] {
+					st["NNC:"+canon(call)+"."+fld] = []string{"=" + typeName(call.Type()) + "." + fld}
+				}
 				for _, pj := range e.retKey[cs[0]] {
 					if pj < len(cc.Args) {
 						m := cc.Args[pj]
@@ -1332,6 +1377,34 @@ func (e *nilEngine) keyIn(m, k ssa.Value, st fstate) bool {
 		// this function runs if neither it nor anything it calls deletes from a map of that type
 		if e.deleteReachable(mm.Parent(), m.Type()) {
 			return false
+		}
+	case *ssa.UnOp:
+		// a map kept in an unexported field of a struct of the module that is set exactly once (where the struct is
+		// built): the same map object for the life of that struct; its key set cannot shrink if nothing reachable
+		// deletes from a map of that type
+		fa, isFA := mm.X.(*ssa.FieldAddr)
+		if mm.Op != token.MUL || !isFA {
+			return false
+		}
+		switch fa.X.(type) {
+		case *ssa.Parameter, *ssa.Alloc:
+		default:
+			return false
+		}
+		vals, ok := e.p.unexportedFieldStores(fa)
+		if !ok || len(vals) != 1 {
+			return false
+		}
+		if _, isMk := vals[0].(*ssa.MakeMap); !isMk {
+			return false
+		}
+		if e.deleteReachable(fn, m.Type()) {
+			return false
+		}
+		for _, root := range e.all {
+			if hasDeleteOfType(root, m.Type()) {
+				return false
+			}
 		}
 	default:
 		return false
@@ -2655,4 +2728,16 @@ func (e *nilEngine) paramAtAllCallSites(v ssa.Value, pred func(ssa.Value) bool, 
 		}
 	}
 	return true
+}
+
+// hasDeleteOfType: the function deletes from a map of type t.
+func hasDeleteOfType(fn *ssa.Function, t types.Type) bool {
+	for _, b := range fn.Blocks {
+		for _, in := range b.Instrs {
+			if call, ok := in.(*ssa.Call); ok && isBuiltin(call, "delete") && types.Identical(call.Call.Args[0].Type(), t) {
+				return true
+			}
+		}
+	}
+	return false
 }
